@@ -126,6 +126,20 @@ func (e *Engine) funcRef(vc *VC, f *ssa.Function) string {
 	return fmt.Sprintf("(- %d)", 1000000+n)
 }
 
+// nonNilMap: values stored in maps of this type are never nil
+func (vc *VC) nonNilMap(m *types.Map) bool {
+	if vc.nnMaps == nil {
+		vc.nnMaps = map[string]bool{}
+		env := &SpecEnv{vc: vc, pkg: vc.eng.pkgs[0].Pkg}
+		for _, te := range vc.eng.contracts.NonNilMaps {
+			if t, err := env.resolveType(te); err == nil {
+				vc.nnMaps[typeKey(t.Underlying())] = true
+			}
+		}
+	}
+	return vc.nnMaps[typeKey(m)]
+}
+
 func newVC(e *Engine, key string, c *Contract) *VC {
 	vc := &VC{eng: e, S: newSorts(), fnKey: key, contract: c, initHeap: Heap{}, heapSort: map[string]string{},
 		frames: map[string][]frameAx{}, ghosts: map[string]Val{}, mapKeys: map[string][]string{}, assumed: map[string]bool{},
@@ -225,6 +239,31 @@ func (e *Engine) verifyFunc(key string) (*VC, error) {
 			delete(penv.vars, "result")
 		}
 		penv.fr = nil
+		// a return inside an index loop may refer to the loop's current index as `idx`
+		if rb := r.block; rb != nil {
+			for _, b := range fn.Blocks {
+				isHeader := false
+				for _, p := range b.Preds {
+					if isBackEdge(p, b) {
+						isHeader = true
+					}
+				}
+				inLoop := false
+				if isHeader {
+					for x := range loopBlocks(b) {
+						if x != b && x.Dominates(rb) {
+							inLoop = true // the return leaves the loop from inside its body
+						}
+					}
+				}
+				if inLoop {
+					penv.fr, penv.at = fr, b
+					if penv.locals == nil {
+						penv.noLocals = true
+					}
+				}
+			}
+		}
 		pos := vc.pos(fr, r.pos)
 		for _, en := range c.Ensures {
 			t, err := penv.evalBool(en.Expr)
@@ -235,6 +274,16 @@ func (e *Engine) verifyFunc(key string) (*VC, error) {
 			vc.oblige("post", fmt.Sprintf("postcondition at return %d: %s", ri, en.Name()), en.Props, pos, r.reach, t)
 		}
 		vc.frameCheck(fr, c, st, ri, pos)
+		if c.HasPropagates {
+			nres := fn.Signature.Results().Len()
+			if nres > 0 && len(r.vals) == nres {
+				own := r.vals[nres-1].T
+				for _, pe := range r.errs {
+					vc.oblige("err-propagation", fmt.Sprintf("an error returned by %s makes the function fail (return %d)", pe.what, ri), c.Propagates, pos, r.reach,
+						fmt.Sprintf("(=> (and %s (not (= (itag %s) 0))) (not (= (itag %s) 0)))", pe.reach, pe.term, own))
+				}
+			}
+		}
 	}
 	vc.obls = append(vc.obls, &Obligation{ID: len(vc.obls), Func: key, Kind: "canary", Name: "some return is reachable (must be refuted)",
 		Prefix: len(vc.lines), Reach: "true", Goal: not(or(reaches...)), ExpectFail: true})
@@ -289,6 +338,9 @@ func (vc *VC) frameGoals(fr *frame, c *Contract, st *state) []namedGoal {
 		init := vc.heapGet(vc.entryHeap, k)
 		if final == init {
 			continue
+		}
+		if os.Getenv("GOVC_DEBUG_FRAME") != "" {
+			fmt.Fprintf(os.Stderr, "frame-diff %s: %s vs %s\n", k, final, init)
 		}
 		expected := init
 		for _, ml := range vc.frameLocs {
